@@ -443,3 +443,22 @@ func (w *World) sortedFuncKeys() []string {
 }
 
 var _ = ast.NewIdent
+
+// scalarTypeID: the type with this id is an integer, bool or string type (its interface payload is
+// the value itself)
+func (w *World) scalarTypeID(id int) bool {
+	for k, v := range w.typeIDs {
+		if v == id {
+			t := w.typeByKey[k]
+			if t == nil {
+				return false
+			}
+			b, ok := t.Underlying().(*types.Basic)
+			if !ok {
+				return false
+			}
+			return b.Info()&(types.IsInteger|types.IsBoolean|types.IsString) != 0
+		}
+	}
+	return false
+}
